@@ -15,11 +15,14 @@ from . import refmodel as R
 from . import toolchain as T
 
 CXX = os.environ.get('VERIF_CXX', 'clang++-14')
-SAN_FLAGS = ['-fsanitize=address,undefined', '-fno-sanitize-recover=all', '-fno-omit-frame-pointer']
+# every check aborts except the enum-range check, which reports and continues (the report is attributed to its
+# case through the BEGIN markers on stderr); loads of out-of-range enum values are a recorded finding
+SAN_FLAGS = ['-fsanitize=address,undefined', '-fno-sanitize-recover=all', '-fsanitize-recover=enum',
+             '-fno-omit-frame-pointer']
 BASE_FLAGS = ['-std=gnu++14', '-O0', '-g0', '-w']
 ASAN_ENV = {'ASAN_OPTIONS': 'detect_leaks=0:abort_on_error=0:exitcode=86:allocator_may_return_null=1:'
                             'max_allocation_size_mb=256',
-            'UBSAN_OPTIONS': 'print_stacktrace=0:halt_on_error=1:exitcode=87'}
+            'UBSAN_OPTIONS': 'print_stacktrace=0:exitcode=87'}
 
 DRIVER_PRELUDE = r'''
 #include <stdint.h>
@@ -200,6 +203,7 @@ int main()
         size_t n = strlen(hex);
         while (n && (hex[n - 1] == '\n' || hex[n - 1] == ' ')) hex[--n] = 0;
         printf("BEGIN %s\n", id); fflush(stdout);
+        fprintf(stderr, "BEGIN %s\n", id); fflush(stderr);
         std::map<std::string, vt_t>::iterator it = table.find(type);
         if (it == table.end()) { printf("R %s exc=NO-SUCH-TYPE\n", id); fflush(stdout); continue; }
         run(it->second, id, endian, op, from_hex(hex));
@@ -317,6 +321,13 @@ def run_driver(exe, cases, timeout=120):
                 r = parse_result(line)
                 results[r['id']] = r
                 done.add(r['id'])
+        # recovered sanitizer reports (enum range): attribute through the BEGIN markers on stderr
+        cur = None
+        for line in err.splitlines():
+            if line.startswith('BEGIN '):
+                cur = line.split()[1]
+            elif 'runtime error:' in line and cur in results and 'ubsan' not in results[cur]:
+                results[cur]['ubsan'] = line.strip()[-300:]
         if code == 0:
             break
         # died: attribute to the last BEGIN without result
